@@ -1,10 +1,13 @@
 (* C13 -- trace sets.  Executable definitions only (no proofs).
    M : transliteration of pydl/pydlutils/trace.py (fchebyshev, fchebyshev_split, fpoly, func_fit,
-       TraceSet.__init__/xnorm/xy) and pydl/goddard/math.py (flegendre), over exact rationals.
-   S : textbook closed forms of the bases + certified checkers for fit / trace-set outputs.
-   S does not use the recurrences of M. *)
+       TraceSet.__init__/xnorm/xy) and pydl/goddard/math.py (flegendre), over exact rationals.  Every index /
+       arithmetic expression of M is taken from Generated/Trace.v (names g_...), which translate/c13.py
+       regenerates from the source on every run; hand-written: the list plumbing, the meaning of the two scipy
+       polynomial families (legendre_rec, chebyshev_rec), np.linalg.solve (solve_checked), djs_reject (no-op).
+   S : textbook closed forms of the bases, reference forms (..._ref, ..._spec, fit_core, free_problem, fixed_part,
+       scale_rows) + certified checkers for fit / trace-set outputs.  S does not use Generated/ nor the recurrences of M. *)
 From Coq Require Import QArith Qminmax Qround Qabs ZArith List Bool.
-From PV Require Import Lib.WLS C13.LinAlg.
+From PV Require Import Lib.WLS C13.LinAlg Generated.Trace.
 Import ListNotations.
 Open Scope Q_scope.
 
@@ -35,32 +38,45 @@ Fixpoint chebyshev_rec (n : nat) (x : Q) : Q :=
   end.
 
 (* fpoly: leg[k] = leg[k-1] * x *)
+(* fpoly: leg = ones ; leg[1] = x ; leg[k] = leg[k-1] * x (k >= 2) -- expressions from the source *)
 Fixpoint monomial (n : nat) (x : Q) : Q :=
-  match n with O => 1 | S n' => monomial n' x * x end.
+  match n with
+  | O => g_fill
+  | S n' => match n' with O => g_poly_row1 x | S _ => g_poly_rec x (monomial n' x) end
+  end.
 
 Definition step01 (x : Q) : Q := if Qle_bool 0 x then 1 else 0.
 
 (* fchebyshev_split: leg[0] = (x >= 0), leg[1] = 1, leg[2] = x, leg[k] = 2 x leg[k-1] - leg[k-2] (k >= 3) *)
 Fixpoint chebyshev_split (n : nat) (x : Q) : Q :=
   match n with
-  | O => step01 x
+  | O => g_split_row0 x
   | S n' =>
       match n' with
-      | O => 1
+      | O => g_fill
       | S n'' =>
           match n'' with
-          | O => x
-          | S _ => 2 * x * chebyshev_split n' x - chebyshev_split n'' x
+          | O => g_split_row2 x
+          | S _ => g_split_rec x (chebyshev_split n' x) (chebyshev_split n'' x)
           end
       end
   end.
+
+(* what np.polyval(scipy.special.<family>(k), x) means *)
+Definition fam_eval (fam : polyfam) (k : nat) (x : Q) : Q :=
+  match fam with FamLegendre => legendre_rec k x | FamChebyshevT => chebyshev_rec k x end.
+(* flegendre / fchebyshev: ones ; row 1 = x ; row k = polyval(family(degree k), x) (k >= 2) *)
+Definition flegendre_row (k : nat) (x : Q) : Q :=
+  match k with O => g_fill | S O => g_leg_row1 x | _ => fam_eval g_leg_family (g_leg_degree k) x end.
+Definition fchebyshev_row (k : nat) (x : Q) : Q :=
+  match k with O => g_fill | S O => g_cheb_row1 x | _ => fam_eval g_cheb_family (g_cheb_degree k) x end.
 
 Inductive func := Legendre | Chebyshev | Poly | ChebSplit.
 
 Definition basis (f : func) (k : nat) (x : Q) : Q :=
   match f with
-  | Legendre => legendre_rec k x
-  | Chebyshev => chebyshev_rec k x
+  | Legendre => flegendre_row k x
+  | Chebyshev => fchebyshev_row k x
   | Poly => monomial k x
   | ChebSplit => chebyshev_split k x
   end.
@@ -147,10 +163,10 @@ Definition fit_core (rows : list vec) (w y : vec) (ncfit : nat) (ia : list bool)
   end.
 
 Definition scale_rows (ifunc : option vec) (rows : list vec) : list vec :=
-  match ifunc with None => rows | Some s => map2 (fun c r => vscale c r) s rows end.
+  match ifunc with None => rows | Some s => map2 (fun c r => map (fun f => f * c) r) s rows end.
 
-(* func_fit(x, y, ncoeff, invvar, function_name, ia, inputans, inputfunc); None = the code raises *)
-Definition func_fit (f : func) (x y w : vec) (ncoeff : nat) (ia : list bool) (ans : vec)
+(* reference form of func_fit (hand-written; the theorems about the generated form go through it) *)
+Definition func_fit_ref (f : func) (x y w : vec) (ncoeff : nat) (ia : list bool) (ans : vec)
            (ifunc : option vec) : option (vec * vec) :=
   let n := length x in
   let good := filter (fun p => Qlt_bool 0 (snd p)) (combine y w) in
@@ -169,18 +185,88 @@ Definition func_fit (f : func) (x y w : vec) (ncoeff : nat) (ia : list bool) (an
         end
   end.
 
+(* ---- the same with every expression taken from the source (Generated/Trace.v) *)
+Definition b01 (b : bool) : Q := if b then 1 else 0.
+(* inputans * (1 - ia) *)
+Definition fixed_part_gen (ans : vec) (ia : list bool) : vec := map2 (fun a (b : bool) => g_fixv a (b01 b)) ans ia.
+Definition outer_uv (u v : vec) : mat := map (fun a => vscale a v) u.
+(* alpha = finalarr . extra2^T with extra2 = g_extra2(finalarr, invvar) ; beta = (g_beta_w ysub invvar) . finalarr^T *)
+Fixpoint gen_alpha (m : nat) (D : list obs) : mat :=
+  match D with
+  | [] => zero_mat m
+  | o :: D' => let '(r, w, y) := o in madd (outer_uv r (map (fun f => g_extra2 f w) r)) (gen_alpha m D')
+  end.
+Fixpoint gen_beta (m : nat) (D : list obs) : vec :=
+  match D with
+  | [] => zeros m
+  | o :: D' => let '(r, w, y) := o in vadd (vscale (g_beta_w y w) r) (gen_beta m D')
+  end.
+Definition wls_solve_gen (m : nat) (D : list obs) : option vec :=
+  solve_checked (mred (gen_alpha m D)) (vred (gen_beta m D)).
+Definition free_problem_gen (rows : list vec) (w y : vec) (mask : list bool) (fixv : vec) : list obs :=
+  combine (combine (map (select mask) rows) w) (map2 (fun yi r => g_ysub yi (dot r fixv)) y rows).
+Definition fit_core_gen (rows : list vec) (w y : vec) (ncfit : nat) (ia : list bool) (ans : vec) : option (vec * vec) :=
+  let mask := map g_nonfix (firstn ncfit ia) in
+  match wls_solve_gen (count_true mask) (free_problem_gen rows w y mask (fixed_part_gen ans ia)) with
+  | None => None
+  | Some sol =>
+      let res := scatter 0 mask sol ans in
+      Some (res, map (fun r => dot r res) rows)
+  end.
+Definition scale_rows_gen (ifunc : option vec) (rows : list vec) : list vec :=
+  match ifunc with None => rows | Some s => map2 (fun c r => map (fun f => g_ifunc f c) r) s rows end.
+
+(* func_fit(x, y, ncoeff, invvar, function_name, ia, inputans, inputfunc); None = the code raises *)
+Definition func_fit (f : func) (x y w : vec) (ncoeff : nat) (ia : list bool) (ans : vec)
+           (ifunc : option vec) : option (vec * vec) :=
+  let n := length x in
+  let good := filter (fun p => g_good (snd p)) (combine y w) in
+  let ngood := length good in
+  if Nat.eqb ngood g_ngood_none then Some (zeros ncoeff, zeros n)
+  else if Nat.eqb ngood g_ngood_one then
+    let y0 := hd 0 (map fst good) in Some (y0 :: zeros (ncoeff - 1), repeat y0 n)
+  else
+    let ncfit := g_ncfit ngood ncoeff in
+    let rows := scale_rows_gen ifunc (map (basis_row f ncfit) x) in
+    let has_fixed := existsb g_fixed (firstn ncfit ia) in
+    if has_fixed && negb (Nat.eqb (length ans) ncoeff && Nat.eqb ncfit ncoeff) then None
+    else
+      match fit_core_gen rows w y ncfit ia ans with
+      | None => None
+      | Some (res, yfit) => Some (res ++ zeros (ncoeff - ncfit), yfit)
+      end.
+
 (* ================================================================== M : TraceSet *)
 Definition clamp01 (q : Q) : Q := Qmin (Qmax q 0) 1.
 
 (* jump = (xjumplo, xjumphi, xjumpval) *)
 Definition jump := (Q * Q * Q)%type.
 
-Definition xnorm (xmin xmax : Q) (j : option jump) (x : Q) : Q :=
+Definition xnorm_spec (xmin xmax : Q) (j : option jump) (x : Q) : Q :=
   let xnat := match j with
               | Some (lo, hi, val) => x + clamp01 ((x - lo) / (hi - lo)) * val
               | None => x
               end in
   2 * (xnat - (1 # 2) * (xmin + xmax)) / (xmax - xmin).
+
+(* TraceSet.xnorm with the expressions of the source *)
+Definition xnorm (xmin xmax : Q) (j : option jump) (x : Q) : Q :=
+  let xnat := match j with
+              | Some (lo, hi, val) => g_xnatural x (g_jfrac x lo hi) val
+              | None => x
+              end in
+  g_xnorm xnat (g_xmid xmin xmax) (g_xrange xmin xmax).
+Definition is_some {A : Type} (o : option A) : bool := match o with Some _ => true | None => false end.
+(* the jump argument __init__ passes to xnorm (do_jump is True iff xjumplo was given) *)
+Definition fit_jump (j : option jump) : option jump :=
+  match g_fit_jump_arg with ArgDoJump => j | ArgFalse => None | ArgTrue => j end.
+(* the jump argument xy() passes: do_jump = has_jump and not ignore_jump *)
+Definition xy_jump (j : option jump) (ignore_jump : bool) : option jump :=
+  match g_xy_jump_arg with
+  | ArgDoJump => if g_do_jump (g_has_jump (is_some j)) ignore_jump then j else None
+  | ArgFalse => None
+  | ArgTrue => j
+  end.
 
 Definition qmin_list (d : Q) (l : vec) : Q := fold_left Qmin l d.
 Definition qmax_list (d : Q) (l : vec) : Q := fold_left Qmax l d.
@@ -200,7 +286,7 @@ Definition ts_fit (f : func) (ncoeff : nat) (oxmin oxmax : option Q) (j : option
   let xmin := match oxmin with Some v => v | None => mat_min xpos end in
   let xmax := match oxmax with Some v => v | None => mat_max xpos end in
   let fits := map (fun t => let '(xr, yr, wr, mr) := t in
-                            func_fit f (map (xnorm xmin xmax j) xr) yr (mask_w wr mr) ncoeff (all_true ncoeff) [] None)
+                            func_fit f (map (xnorm xmin xmax (fit_jump j)) xr) yr (mask_w wr mr) ncoeff (all_true ncoeff) [] None)
                   (combine (combine (combine xpos ypos) ivar) inmask) in
   match opt_all fits with
   | None => None
@@ -212,12 +298,13 @@ Definition ts_fit (f : func) (ncoeff : nat) (oxmin oxmax : option Q) (j : option
 Definition xy_supported (f : func) : bool := match f with ChebSplit => false | _ => true end.
 
 Definition ts_eval_row (t : traceset) (ignore_jump : bool) (xr c : vec) : vec :=
-  let j := if ignore_jump then None else ts_jump t in
+  let j := xy_jump (ts_jump t) ignore_jump in
   map (fun x => dot (basis_row (ts_func t) (ts_ncoeff t) (xnorm (ts_xmin t) (ts_xmax t) j x)) c) xr.
 
-Definition ts_nx (t : traceset) : nat := Z.to_nat (Qfloor (ts_xmax t - ts_xmin t + 1)).
+Definition ts_nx_spec (t : traceset) : nat := Z.to_nat (Qfloor (ts_xmax t - ts_xmin t + 1)).
+Definition ts_nx (t : traceset) : nat := g_nx (g_xrange (ts_xmin t) (ts_xmax t)).
 Definition default_grid (t : traceset) : mat :=
-  map (fun _ => map (fun k => inject_Z (Z.of_nat k) + ts_xmin t) (seq 0 (ts_nx t))) (ts_coeff t).
+  map (fun _ => map (fun k => g_grid (inject_Z (Z.of_nat k)) (ts_xmin t)) (seq 0 (ts_nx t))) (ts_coeff t).
 
 (* TraceSet.xy(xpos=None, ignore_jump=False) *)
 Definition ts_xy (t : traceset) (oxpos : option mat) (ignore_jump : bool) : option (mat * mat) :=
@@ -258,12 +345,12 @@ Definition fit_ok (f : func) (x y w : vec) (ncoeff : nat) (ia : list bool) (ans 
 (* S-side evaluation of a trace set *)
 Definition ts_eval_row_spec (t : traceset) (ignore_jump : bool) (xr c : vec) : vec :=
   let j := if ignore_jump then None else ts_jump t in
-  map (fun x => dot (basis_row_spec (ts_func t) (ts_ncoeff t) (xnorm (ts_xmin t) (ts_xmax t) j x)) c) xr.
+  map (fun x => dot (basis_row_spec (ts_func t) (ts_ncoeff t) (xnorm_spec (ts_xmin t) (ts_xmax t) j x)) c) xr.
 
 (* default grid: nTrace rows, floor(xmax-xmin+1) columns xmin, xmin+1, ... *)
 Definition grid_ok (t : traceset) (xs : mat) : bool :=
   Nat.eqb (length xs) (length (ts_coeff t))
-  && forallb (fun r => Nat.eqb (length r) (ts_nx t)
+  && forallb (fun r => Nat.eqb (length r) (ts_nx_spec t)
                        && forallb (fun p => Qeq_bool (fst p) (inject_Z (Z.of_nat (snd p)) + ts_xmin t))
                                   (combine r (seq 0 (length r)))) xs.
 
@@ -322,7 +409,7 @@ Definition run_case (c : case) : Z :=
       let spec :=
         (* every trace is the weighted least-squares fit *)
         forallb (fun q => let '(xr, yr, wr, mr, cr, yfr) := q in
-                   fit_ok f (map (xnorm xmin xmax j) xr) yr (mask_w wr mr) ncoeff (all_true ncoeff) [] None cr yfr)
+                   fit_ok f (map (xnorm_spec xmin xmax j) xr) yr (mask_w wr mr) ncoeff (all_true ncoeff) [] None cr yfr)
                 (combine (combine (combine (combine (combine xpos ypos) ivar) inmask) icoeff) iyfit)
         && Nat.eqb (length icoeff) (length xpos) && Nat.eqb (length iyfit) (length xpos)
         (* evaluating at the same positions returns the positions and the fitted values *)
